@@ -96,6 +96,10 @@ class GenDomain(Domain):
         acc = list(itertools.accumulate(l))
         add('aggregate(add2)', 'S.aggregate(add2)', C(acc) if l else ('MAYBE', Fin(())))
         add('aggregate(0,add2)', 'S.aggregate(0, add2)', C([0] + list(itertools.accumulate(l))) if not m.inf else Inf(([0] + acc)[:INFP]))
+        if m.inf:
+            # the copies of an infinite stream: the first one never ends (and nothing may be consumed up front)
+            add('repeat(2)', 'S.repeat(2)', Inf(l))
+            add('repeat()', 'S.repeat()', Inf(l))
         if not m.inf:
             add('repeat(2)', 'S.repeat(2)', Fin(l * 2))
             add('repeat(0)', 'S.repeat(0)', ('MAYBE', Fin(())))
@@ -120,6 +124,12 @@ class GenDomain(Domain):
         lim = '.take(8).to_array()' if m.inf else '.to_array()'
         out.append(('!enumerate', 'S.enumerate()' + lim, T(Seq(list(enumerate(p if m.inf else l))))))
         out.append(('!enumerate(1,2)', 'S.enumerate(1, 2)' + lim, T(Seq([(1 + 2 * i, x) for i, x in enumerate(p if m.inf else l)]))))
+        for st, sp in ((-2, None), (-2, 1), (0, 1), (5, -1), (3, 0)):
+            args = '%d' % st if sp is None else '%d, %d' % (st, sp)
+            step = 1 if sp is None else sp
+            out.append(('!enumerate(%s)' % args, 'S.enumerate(%s)' % args + lim, T(Seq([(st + step * i, x) for i, x in enumerate(p if m.inf else l)]))))
+        out.append(('!flatten-empty-outer', '[S].to_generator().take(0).flatten().to_array()', T(Seq([]))))
+        out.append(('!flatten-inner-empty', '[S.take(0), S.take(0)].to_generator().flatten().to_array()', T(Seq([]))))
         out.append(('!zip-count', 'S.zip(count().to_generator())' + lim, T(Seq([(x, i) for i, x in enumerate(p if m.inf else l)]))))
         for w in (1, 2, 3):
             src = l[:8 + w] if m.inf else l
@@ -254,6 +264,8 @@ ADAPTORS = [
     ('aggregate', '.aggregate(add2)', lambda it: itertools.accumulate(it), 1, True),
     ('aggregate0', '.aggregate(0, add2)', lambda it: itertools.accumulate(it, initial=0), 1, True),
     ('distinct', '.distinct()', lambda it: it, 1, True),
+    ('repeat3', '.repeat(3)', lambda it: it, 1, True),
+    ('repeat-inf', '.repeat()', lambda it: it, 1, True),
     ('enumerate', '.enumerate()', lambda it: enumerate(it), 1, False),
     ('zip', '.zip(count().to_generator())', lambda it: zip(it, itertools.count()), 1, False),
     ('windows2', '.windows(2)', lambda it: windows(it, 2), 2, False),
